@@ -37,7 +37,7 @@ var atoms = map[Fam][]string{
 	FInvalid:   {"\x80", "\xbf", "\xc3", "\xe2\x82", "\xf0\x9f\x98", "\xff", "\xfe", "\xc0\xaf", "\xed\xa0\x80", "\xf8\x88\x80\x80\x80", "a\xffb"},
 	FSGR:       {"\x1b[1m", "\x1b[0m", "\x1b[31m", "\x1b[38;5;200m", "\x1b[m"},
 	FNUL:       {"\x00", "a\x00b"},
-	FEdge: {"\ufffd", "a\ufffdb", "\ufffd\ufffd", "\uffff", "\ufffe", "\U0010ffff", "\ue000", "\u0080", "\u07ff", "\u0800", "\U00010000", "\u2028", "\u2029", "\u0085", "\v", "\f", "\x1c", "\x1f", "\x7f", "\u00a0", "\ufdd0",
+	FEdge: {"\u061c", "a\u2066b\u2069", "\u2067", "\u2068x", "\u202eabc\u202c", "\u200e", "\u200f", "\ufffd", "a\ufffdb", "\ufffd\ufffd", "\uffff", "\ufffe", "\U0010ffff", "\ue000", "\u0080", "\u07ff", "\u0800", "\U00010000", "\u2028", "\u2029", "\u0085", "\v", "\f", "\x1c", "\x1f", "\x7f", "\u00a0", "\ufdd0",
 		// printable look-alikes of the escape sequences of the output formats (JSON, Go, C): every character of them is ordinary
 		"\\u0008", "\\u000c", "\\u003c", "\\n", "\\t", "\\b", "\\f", "\\\"", "\\\\", "\\/", "\\x00", "\\u2028", "%20", "%s", "$1", "{{", "&#"},
 }
